@@ -1,5 +1,6 @@
 import JetVerif.Props.C12
 import JetVerif.Props.C12S
+import JetVerif.Props.C12L
 open JetVerif.Props.C12
 #print axioms failure_keeps_rendered_prefix
 #print axioms success_extends_output
@@ -18,3 +19,7 @@ open JetVerif.Props.C12
 #print axioms JetVerif.Props.C12S.setValue_never_crashes
 #print axioms JetVerif.Props.C12S.releaseScope_on_empty_chain_panics
 #print axioms JetVerif.Props.C12S.letVar_on_nil_map_panics
+#print axioms JetVerif.Props.C12L.parsed_tree_lines_lie_in_the_source
+#print axioms JetVerif.Props.C12L.parsed_tree_lines_lie_in_the_source_any_items
+#print axioms JetVerif.Props.C12L.parsed_expression_lines_lie_in_the_source
+#print axioms JetVerif.Props.C12L.parseSource_tree_lines_lie_in_the_source
